@@ -507,7 +507,7 @@ def extract_linear_coefficient(expr: Expression, var: Variable) -> float:
 
 def _extract_coefficient_impl(expr: Expression, var: Variable) -> float:
     """Recursive coefficient extraction."""
-    from optyx.core.vectors import LinearCombination, VectorSum
+    from optyx.core.vectors import DotProduct, LinearCombination, VectorSum
 
     # Constant - contributes 0 to variable coefficient
     if isinstance(expr, Constant):
@@ -541,6 +541,15 @@ def _extract_coefficient_impl(expr: Expression, var: Variable) -> float:
             if v.name == var.name:
                 return 1.0
         return 0.0
+
+    # DotProduct: a linear dot product is a sum of (constant * linear) products
+    if isinstance(expr, DotProduct):
+        return float(
+            sum(
+                _extract_coefficient_impl(BinaryOp(l, r, "*"), var)
+                for l, r in zip(expr._iter_left(), expr._iter_right())
+            )
+        )
 
     # Binary operations
     if isinstance(expr, BinaryOp):
@@ -633,7 +642,7 @@ def extract_constant_term(expr: Expression) -> float:
 
 def _extract_constant_impl(expr: Expression) -> float:
     """Recursive constant term extraction."""
-    from optyx.core.vectors import LinearCombination, VectorSum
+    from optyx.core.vectors import DotProduct, LinearCombination, VectorSum
 
     if isinstance(expr, Constant):
         return float(expr.value)
@@ -655,6 +664,14 @@ def _extract_constant_impl(expr: Expression) -> float:
                 )
             )
         return float(sum(_extract_constant_impl(elem) for elem in elements))
+
+    if isinstance(expr, DotProduct):
+        return float(
+            sum(
+                _extract_constant_impl(BinaryOp(l, r, "*"))
+                for l, r in zip(expr._iter_left(), expr._iter_right())
+            )
+        )
 
     if isinstance(expr, BinaryOp):
         if expr.op == "+":
@@ -699,6 +716,10 @@ def _extract_constant_impl(expr: Expression) -> float:
         if expr.op == "neg":
             return -_extract_constant_impl(expr.operand)
         return 0.0
+
+    # Any other constant-valued node (e.g. a quadratic form of constants)
+    if compute_degree(expr) == 0:
+        return float(expr.evaluate({}))
 
     return 0.0
 
@@ -874,7 +895,12 @@ def _extract_all_coefficients_impl(
         result: Output array to accumulate coefficients into.
         multiplier: Current coefficient multiplier from parent expressions.
     """
-    from optyx.core.vectors import LinearCombination, VectorSum, VectorVariable
+    from optyx.core.vectors import (
+        DotProduct,
+        LinearCombination,
+        VectorSum,
+        VectorVariable,
+    )
 
     # Constant - no variable coefficients
     if isinstance(expr, Constant):
@@ -907,6 +933,14 @@ def _extract_all_coefficients_impl(
             for i, elem in enumerate(expr.vector._expressions):
                 coeff = float(expr.coefficients[i]) * multiplier
                 _extract_all_coefficients_impl(elem, var_index, result, coeff)
+        return
+
+    # DotProduct: a linear dot product is a sum of (constant * linear) products
+    if isinstance(expr, DotProduct):
+        for l, r in zip(expr._iter_left(), expr._iter_right()):
+            _extract_all_coefficients_impl(
+                BinaryOp(l, r, "*"), var_index, result, multiplier
+            )
         return
 
     # Binary operations
